@@ -41,7 +41,9 @@ def sign_run(case):
 
 
 def double_percent(case):
-    return any(isinstance(case.get(k), str) and '%%' in ''.join(case[k].split('"')[::2]) for k in ('text', 'export', 'export_text'))
+    # (also when a whole exported workbook is imported again: the rejected formula is the exported text of a `(x%)%`)
+    return any(isinstance(case.get(k), str) and '%%' in ''.join(case[k].split('"')[::2])
+               for k in ('text', 'export', 'export_text', 'rejected_formula'))
 
 
 SIGNATURES = {'newline_join': newline_text, 'sign_run': sign_run, 'double_percent': double_percent}
@@ -92,7 +94,9 @@ def roundtrip(run, m, case, nontrivial, dist):
         d2 = m2.to_dict()
         s2 = json.dumps(d2, sort_keys=True, default=str)
     except Exception as ex:
-        run.violation('importing the exported dictionary raised %s: %s' % (type(ex).__name__, str(ex)[:120]), case)
+        bad = ex.args[1] if type(ex).__name__ == 'FormulaError' and len(ex.args) > 1 and isinstance(ex.args[1], str) else None
+        run.violation('importing the exported dictionary raised %s: %s' % (type(ex).__name__, str(ex)[:120]),
+                      dict(case, rejected_formula=bad) if bad else case)
         return
     v1, v2 = node_values(sol), node_values(sol2)
     for k in v1:
